@@ -150,7 +150,7 @@ def _gen_pen(rng, tier):
 def _gen_iso(rng, tier):
     for _ in range(50):
         c = C13._gen_sys(rng, tier)
-        if c["cls"] in ("single", "nofeed") and all(abs(v) < 1e100 for v in c["x"]):
+        if c["cls"] in ("single", "nofeed", "neqcombo") and all(abs(v) < 1e100 for v in c["x"]):
             ok = True
             for l in c["lines"]:
                 if abs(A.pyeval(l["rhs"], c["x"])) > 1e100:
@@ -236,6 +236,14 @@ def run_impl(case):
                 pen.iter(3); out["p_iter3"] = float(pen(list(x))); pen.iter(0); out["p_iter0"] = float(pen(list(x)))
         except Exception as e:
             out["p_iter_error"] = "%s: %s" % (type(e).__name__, str(e)[:120])
+        # one penalty kind named for all lines: the sum of that kind's terms over EVERY compiled line
+        try:
+            import mystic.penalty as _mp
+            kk = dict(k=kw["k"]) if "k" in kw else {}
+            out["p_single"] = float(ms.generate_penalty(cond, ptype=_mp.linear_inequality, **kw)(list(x)))
+            out["p_single_ref"] = float(sum(_mp.linear_inequality(f, **kk)(lambda z: 0.0)(list(x)) for f in list(ineq) + list(eq)))
+        except Exception as e:
+            out["p_single_error"] = "%s: %s" % (type(e).__name__, str(e)[:120])
         # the same conditions handed over in another order (equalities first; interleaved flat list): the penalty kind goes with the condition
         try:
             out["p_rev"] = float(ms.generate_penalty((eq, ineq), **kw)(list(x)))
@@ -355,6 +363,12 @@ def oracle(case, obs):
         out.append(_fail("penalty_is_sum_of_terms", "penalty.iter", "iter-0-does-not-reset-the-multiplier", dict(p=p, after_iter0=obs["p_iter0"], at_iter3=obs.get("p_iter3"))))
     if "p_iter_error" in obs:
         out.append(_fail("penalty_is_sum_of_terms", "penalty.iter", "iter-raised", obs["p_iter_error"]))
+    if "p_single" in obs:
+        a_, b_ = obs["p_single"], obs["p_single_ref"]
+        if a_ == a_ and b_ == b_ and abs(a_) != float("inf") and abs(b_) != float("inf") and abs(F(a_) - F(b_)) > F(1, 10 ** 9) * max(abs(F(a_)), abs(F(b_))):
+            out.append(_fail("penalty_is_sum_of_terms", "symbolic.generate_penalty", "single-ptype-not-applied-to-every-line", dict(p=a_, expected=b_)))
+    if "p_single_error" in obs:
+        out.append(_fail("penalty_is_sum_of_terms", "symbolic.generate_penalty", "single-ptype-rejected", obs["p_single_error"]))
     for key in ("p_rev", "p_flat"):
         q = obs.get(key)
         if q is not None and p == p and p >= 0 and p != float("inf") and not (exp < F(1, 10 ** 300)):
